@@ -1237,3 +1237,184 @@ Proof.
   - destruct Hp' as [->| ->]; apply FloatOrderL.b64_sign_nonneg; vm_compute; reflexivity.
   - destruct Hp' as [->| ->]; vm_compute; reflexivity.
 Qed.
+
+(** ** Plackett-Luce in IEEE 754 binary64: a team alone in first place never loses rating.
+
+    In [pl_omega_delta P trs c qs i ti] the omega of team [ti] is fl(S * fl(sigma_i^2 / c)),
+    where S accumulates, over the entries [(q, (tq, (sum_q, A_q)))] with rank tq <= rank ti, the
+    term fl(fl(1 - p) / A_q) for q = i and - fl(p / A_q) for q <> i, p = fl(e_i / sum_q),
+    e_i = exp(mu_i / c); entries with rank tq > rank ti are skipped.
+    [C05_pl_first_alone_omega_nonneg_binary64]: on the entries [compute_pl] builds, for the team
+    [ti] at position [i], if the team at every other position has a rank strictly greater than
+    [ti]'s (alone in first place; stated by position, so that a second copy of the same record
+    elsewhere in the list is not mistaken for the team itself), omega >= 0 as a double, for any
+    scale [c] ([compute_pl] passes [c := pl_c P trs]).  Why: the only entry used is the team's own,
+    S = fl(0 + fl(fl(1 - p) / A_i)); sum_i is the left-to-right float sum of the exponentials
+    of all teams (all are ranked no better than [ti]), e_i is one of the summands, so
+    e_i <= sum_i as doubles, p in [0,1], fl(1 - p) >= 0; A_i is an int in [1, number of teams]
+    converted exactly.  Premises: exp >= 0 on finite arguments; number of teams <= 2^53;
+    sigma_i^2 / c >= 0; no overflow in the arguments of exp, in the team's own sum_i and in the
+    result omega.  Derived: finiteness of S, of the term, of 1 - p and of p; sum_i <> 0.
+    [C05_pl_first_alone_mu_binary64]: composed with [C05_update_mu_direction_binary64]: every
+    member [p] gets a new mu >= the old one; the only result assumed finite is the new mu (the
+    finiteness of omega is derived from it). *)
+From OSV.Lemmas Require FloatPLFirstL.
+
+Theorem C05_pl_first_alone_omega_nonneg_binary64 :
+  forall (exp64 erfc64 pow64 icdf64 : binary64 -> binary64)
+         (P : params binary64) (trs : list (trating binary64)) (c : binary64)
+         (i : nat) (ti : trating binary64),
+  (forall x : binary64, is_finite 53 1024 x = true -> 0 <= B2R 53 1024 (exp64 x)) ->
+  nth_error trs i = Some ti ->
+  (forall (j : nat) (tq : trating binary64), nth_error trs j = Some tq -> j <> i ->
+     (t_rank ti < t_rank tq)%nat) ->
+  (Z.of_nat (length trs) <= 9007199254740992)%Z ->
+  0 <= B2R 53 1024 (@fdiv binary64 (B64Num exp64 erfc64 pow64 icdf64) (t_ss ti) c) ->
+  (forall t : trating binary64, In t trs ->
+     is_finite 53 1024 (@fdiv binary64 (B64Num exp64 erfc64 pow64 icdf64) (t_mu t) c) = true) ->
+  (forall s : binary64,
+     nth_error (@pl_sum_q binary64 (B64Num exp64 erfc64 pow64 icdf64) trs c) i = Some s ->
+     is_finite 53 1024 s = true) ->
+  is_finite 53 1024
+    (fst (@pl_omega_delta binary64 (B64Num exp64 erfc64 pow64 icdf64) P trs c
+            (combine (seq 0 (length trs))
+               (combine trs (combine (@pl_sum_q binary64 (B64Num exp64 erfc64 pow64 icdf64) trs c)
+                               (@pl_a binary64 trs))))
+            i ti)) = true ->
+  0 <= B2R 53 1024
+         (fst (@pl_omega_delta binary64 (B64Num exp64 erfc64 pow64 icdf64) P trs c
+                 (combine (seq 0 (length trs))
+                    (combine trs (combine (@pl_sum_q binary64 (B64Num exp64 erfc64 pow64 icdf64) trs c)
+                                    (@pl_a binary64 trs))))
+                 i ti)).
+Proof. exact FloatPLFirstL.pl_first_alone_omega_nonneg_b64. Qed.
+Print Assumptions C05_pl_first_alone_omega_nonneg_binary64.
+
+(** composed: instantiate [p] by each element of [t_team ti]: this is the mu that [update_team],
+    i.e. [compute_pl], returns for that player *)
+Theorem C05_pl_first_alone_mu_binary64 :
+  forall (exp64 erfc64 pow64 icdf64 : binary64 -> binary64)
+         (P : params binary64) (trs : list (trating binary64)) (c : binary64)
+         (i : nat) (ti : trating binary64) (p : rating binary64),
+  (forall x : binary64, is_finite 53 1024 x = true -> 0 <= B2R 53 1024 (exp64 x)) ->
+  nth_error trs i = Some ti ->
+  (forall (j : nat) (tq : trating binary64), nth_error trs j = Some tq -> j <> i ->
+     (t_rank ti < t_rank tq)%nat) ->
+  (Z.of_nat (length trs) <= 9007199254740992)%Z ->
+  0 <= B2R 53 1024 (@fdiv binary64 (B64Num exp64 erfc64 pow64 icdf64) (t_ss ti) c) ->
+  (forall t : trating binary64, In t trs ->
+     is_finite 53 1024 (@fdiv binary64 (B64Num exp64 erfc64 pow64 icdf64) (t_mu t) c) = true) ->
+  (forall s : binary64,
+     nth_error (@pl_sum_q binary64 (B64Num exp64 erfc64 pow64 icdf64) trs c) i = Some s ->
+     is_finite 53 1024 s = true) ->
+  0 <= B2R 53 1024 (@fdiv binary64 (B64Num exp64 erfc64 pow64 icdf64)
+                      (@fpow2 binary64 (B64Num exp64 erfc64 pow64 icdf64) (r_sigma p)) (t_ss ti)) ->
+  is_finite 53 1024
+    (r_mu (@update_player binary64 (B64Num exp64 erfc64 pow64 icdf64) P ti
+       (fst (@pl_omega_delta binary64 (B64Num exp64 erfc64 pow64 icdf64) P trs c
+               (combine (seq 0 (length trs))
+                  (combine trs (combine (@pl_sum_q binary64 (B64Num exp64 erfc64 pow64 icdf64) trs c)
+                                  (@pl_a binary64 trs))))
+               i ti))
+       (snd (@pl_omega_delta binary64 (B64Num exp64 erfc64 pow64 icdf64) P trs c
+               (combine (seq 0 (length trs))
+                  (combine trs (combine (@pl_sum_q binary64 (B64Num exp64 erfc64 pow64 icdf64) trs c)
+                                  (@pl_a binary64 trs))))
+               i ti)) p)) = true ->
+  B2R 53 1024 (r_mu p)
+  <= B2R 53 1024
+       (r_mu (@update_player binary64 (B64Num exp64 erfc64 pow64 icdf64) P ti
+          (fst (@pl_omega_delta binary64 (B64Num exp64 erfc64 pow64 icdf64) P trs c
+                  (combine (seq 0 (length trs))
+                     (combine trs (combine (@pl_sum_q binary64 (B64Num exp64 erfc64 pow64 icdf64) trs c)
+                                     (@pl_a binary64 trs))))
+                  i ti))
+          (snd (@pl_omega_delta binary64 (B64Num exp64 erfc64 pow64 icdf64) P trs c
+                  (combine (seq 0 (length trs))
+                     (combine trs (combine (@pl_sum_q binary64 (B64Num exp64 erfc64 pow64 icdf64) trs c)
+                                     (@pl_a binary64 trs))))
+                  i ti)) p)).
+Proof. exact FloatPLFirstL.pl_first_alone_mu_b64. Qed.
+Print Assumptions C05_pl_first_alone_mu_binary64.
+
+(** Non-vacuity: three teams with aggregates (mu, sigma^2, rank) = (25, 139, 0), (30, 50, 1),
+    (20, 200, 1) (the last two tied behind the first), beta = 25/6, default gamma,
+    [c := pl_c P trs], stand-ins [exp := |x|], [x ** 2 := x * x].  The first team (index 0) is
+    alone in first place; its omega is strictly positive (by computation on doubles), and it is
+    the omega [compute_pl] uses for that team. *)
+Example C05_pl_first_alone_omega_nonneg_binary64_example :
+  let N := B64Num b64_abs (fun x => x) (fun x => b64_mult mode_NE x x) (fun x => x) in
+  let P := @mkParams binary64 (b64_of_bits 4616377268039232171) (b64_of_dyadic 1 (-13))
+             (@gamma_default binary64 N) in
+  let ti := @mkT binary64 (b64_of_Z 25) (b64_of_Z 139) [] 0 in
+  let t1 := @mkT binary64 (b64_of_Z 30) (b64_of_Z 50) [] 1 in
+  let t2 := @mkT binary64 (b64_of_Z 20) (b64_of_Z 200) [] 1 in
+  let trs := [ti; t1; t2] in
+  let c := @pl_c binary64 N P trs in
+  let qs := combine (seq 0 (length trs)) (combine trs (combine (@pl_sum_q binary64 N trs c) (@pl_a binary64 trs))) in
+  0 <= B2R 53 1024 (fst (@pl_omega_delta binary64 N P trs c qs 0 ti))
+  /\ b64_ltb (@fzero binary64 N) (fst (@pl_omega_delta binary64 N P trs c qs 0 ti)) = true
+  /\ nth_error (@compute_pl binary64 N P trs) 0
+     = Some (@update_team binary64 N P ti (@pl_omega_delta binary64 N P trs c qs 0 ti)).
+Proof.
+  intros N P ti t1 t2 trs c qs. split; [|split; [vm_compute; reflexivity | reflexivity]].
+  apply C05_pl_first_alone_omega_nonneg_binary64.
+  - intros x _. change (0 <= B2R 53 1024 (Babs 53 1024 unop_nan_pl64 x)).
+    rewrite B2R_Babs. apply Rabs_pos.
+  - reflexivity.
+  - intros j tq Hj Hne. unfold trs in Hj.
+    destruct j as [|[|[|j]]]; cbn [nth_error] in Hj.
+    + exfalso. apply Hne. reflexivity.
+    + injection Hj as <-. unfold ti, t1. cbn [t_rank]. lia.
+    + injection Hj as <-. unfold ti, t2. cbn [t_rank]. lia.
+    + destruct j; discriminate Hj.
+  - vm_compute. discriminate.
+  - apply FloatOrderL.b64_sign_nonneg. vm_compute. reflexivity.
+  - intros t [<-|[<-|[<-|[]]]]; vm_compute; reflexivity.
+  - intros s Hs. unfold pl_sum_q, trs in Hs. cbn [map nth_error] in Hs.
+    match type of Hs with Some ?x = Some _ => assert (E : x = s) by congruence end.
+    rewrite <- E. vm_compute. reflexivity.
+  - vm_compute. reflexivity.
+Qed.
+
+(** the composition on a two-player team (25, 25/3), (30.5, 7.25) alone in first place ahead of
+    (30, 50, rank 1) and (20, 200, rank 1): both players' mu strictly increase *)
+Example C05_pl_first_alone_mu_binary64_example :
+  let N := B64Num b64_abs (fun x => x) (fun x => b64_mult mode_NE x x) (fun x => x) in
+  let P := @mkParams binary64 (b64_of_bits 4616377268039232171) (b64_of_dyadic 1 (-13))
+             (@gamma_default binary64 N) in
+  let p1 := @mkRating binary64 (b64_of_bits 4627730092099895296) (b64_of_bits 4620880867666602667) 0%Z NmNone in
+  let p2 := @mkRating binary64 (b64_of_bits 4629278204471803904) (b64_of_bits 4619848792751996928) 1%Z NmNone in
+  let ti := @team_rating binary64 N [p1; p2] 0 in
+  let t1 := @mkT binary64 (b64_of_Z 30) (b64_of_Z 50) [] 1 in
+  let t2 := @mkT binary64 (b64_of_Z 20) (b64_of_Z 200) [] 1 in
+  let trs := [ti; t1; t2] in
+  let c := @pl_c binary64 N P trs in
+  let qs := combine (seq 0 (length trs)) (combine trs (combine (@pl_sum_q binary64 N trs c) (@pl_a binary64 trs))) in
+  let od := @pl_omega_delta binary64 N P trs c qs 0 ti in
+  forall p, In p (t_team ti) ->
+  B2R 53 1024 (r_mu p) <= B2R 53 1024 (r_mu (@update_player binary64 N P ti (fst od) (snd od) p))
+  /\ b64_ltb (r_mu p) (r_mu (@update_player binary64 N P ti (fst od) (snd od) p)) = true.
+Proof.
+  intros N P p1 p2 ti t1 t2 trs c qs od p Hp.
+  assert (Hp' : p = p1 \/ p = p2) by (destruct Hp as [<-|[<-|[]]]; auto).
+  split; [|destruct Hp' as [->| ->]; vm_compute; reflexivity].
+  apply C05_pl_first_alone_mu_binary64.
+  - intros x _. change (0 <= B2R 53 1024 (Babs 53 1024 unop_nan_pl64 x)).
+    rewrite B2R_Babs. apply Rabs_pos.
+  - reflexivity.
+  - intros j tq Hj Hne. unfold trs in Hj.
+    destruct j as [|[|[|j]]]; cbn [nth_error] in Hj.
+    + exfalso. apply Hne. reflexivity.
+    + injection Hj as <-. unfold ti, t1, team_rating. cbn [t_rank]. lia.
+    + injection Hj as <-. unfold ti, t2, team_rating. cbn [t_rank]. lia.
+    + destruct j; discriminate Hj.
+  - vm_compute. discriminate.
+  - apply FloatOrderL.b64_sign_nonneg. vm_compute. reflexivity.
+  - intros t [<-|[<-|[<-|[]]]]; vm_compute; reflexivity.
+  - intros s Hs. unfold pl_sum_q, trs in Hs. cbn [map nth_error] in Hs.
+    match type of Hs with Some ?x = Some _ => assert (E : x = s) by congruence end.
+    rewrite <- E. vm_compute. reflexivity.
+  - destruct Hp' as [->| ->]; apply FloatOrderL.b64_sign_nonneg; vm_compute; reflexivity.
+  - destruct Hp' as [->| ->]; vm_compute; reflexivity.
+Qed.
